@@ -305,6 +305,52 @@ def features_of(c):
     return f
 
 
+SECTION_WORDS = {"Minimize": "TMinimize", "Subject To": "TSubjectTo", "Bounds": "TBounds", "Binary": "TBinary",
+                 "General": "TGeneral", "End": "TEnd"}
+
+
+def lex_lp(text, T, con_index):
+    """the whitespace-separated words of the text lp.dumps wrote -> Coq `token` terms.
+    Section keywords are the lines that start in column 0 (every other line dump writes, and every
+    continuation line, starts with a blank); names and constraint labels are looked up in the model's
+    own label tables; everything else must be a sign, a bracket, `*`, a sense or a Python float."""
+    toks = []
+    section = None
+    for line in text.split('\n'):
+        if line and not line[0].isspace():
+            key = ' '.join(line.split())
+            if key not in SECTION_WORDS:
+                raise ValueError(f"unexpected line in column 0: {line!r}")
+            section = key
+            toks.append(SECTION_WORDS[key])
+            continue
+        for w in line.split():
+            if w.endswith(':'):
+                if section == "Minimize" and w == 'obj:' and toks and toks[-1] == "TMinimize":
+                    toks.append("TObj")
+                else:
+                    toks.append(f"(TLabel {cnat(con_index[w[:-1]])})")
+            elif section in ("Minimize", "Subject To") and w in ('+', '-') :
+                toks.append(f"(TSign {cbool(w == '-')})")
+            elif w == '[':
+                toks.append("TLBr")
+            elif w == ']':
+                toks.append("TRBr")
+            elif w == ']/2':
+                toks.append("TRBrHalf")
+            elif w == '*':
+                toks.append("TStar")
+            elif w in ('<=', '>=', '=') and section == "Subject To":
+                toks.append(f"(TSense {SENSES[w if w != '=' else '==']})")
+            elif w == '<=' and section == "Bounds":
+                toks.append("TLe")
+            elif w in T.names:
+                toks.append(f"(TName {cnat(T.names[w])})")
+            else:
+                toks.append(f"(TNum {cq(Fraction(float(w)))})")
+    return toks
+
+
 class Recorder:
     """records the sequence of _WidthLimitedFile.write calls"""
     def __init__(self):
@@ -408,9 +454,23 @@ def run_trip(c):
     labels = [clabel(l) for l in list(cqm.variables) + list(cqm.constraints)]
     coq = (f"(KTrip {cnat(n)} {obs_expr(cqm.objective, T)} {obs_expr(new.objective, T)} {clist(cons)} {clist(probes)} "
            f"{clist([ctext(w) for w in rec.writes])} {ctext(text)} {clist(labels)})")
+    # the reference parser (Coq) on the words of this very text against what the C++ reader built
+    extra = []
+    try:
+        T.names = {v: T.idx(v) for v in cqm.variables}
+        con_index = {lab: i for i, lab in enumerate(cqm.constraints)}
+        toks = lex_lp(text, T, con_index)
+        cons1 = clist([cpair(cnat(con_index[lab]), f"(mkCon {obs_expr(k.lhs, T)} {SENSES[k.sense.value]} {cq(F(k.rhs))})")
+                       for lab, k in new.constraints.items()])
+        vars1 = clist([f"(mkVar {cnat(T.idx(v))} {new.vartype(v).name} {cq(F(new.lower_bound(v)))} {cq(F(new.upper_bound(v)))})"
+                       for v in new.variables])
+        extra.append(f"(KParse {cnat(n)} {clist(toks)} {obs_expr(new.objective, T)} {cons1} {vars1})")
+    except (ValueError, KeyError) as e:
+        return {"py_fail": f"the text of dumps is not made of the writer's words: {type(e).__name__}: {e}", "features": feats,
+                "observed": text[:2000]}
     feats["wrapped"] = any(len(l) > 70 for l in text.split('\n'))
     feats["long_line"] = max(len(l) for l in text.split('\n')) > 80
-    return {"coq": coq, "py_fail": None, "features": feats,
+    return {"coq": coq, "extra_coq": extra, "py_fail": None, "features": feats,
             "nontrivial": bool(c["obj"]["lin"] or c["obj"]["quad"] or c["cons"])}
 
 
